@@ -15,3 +15,5 @@ require (
 replace github.com/CrowdStrike/csproto => ../repo
 
 replace github.com/CrowdStrike/csproto/example => ../repo/example
+
+replace google.golang.org/protobuf => ../protobuf
